@@ -522,9 +522,14 @@ def clique_family(rng, n=None, keys=1):
                               epochs=[dict(start_size=100 + i, end_time=0)]))
     migs = []
     used = set()
+    windows = rng.random() < 0.4      # the same ordered pair in two abutting time windows
     for k in range(keys):
         rate = [1e-3, 2e-3, 5e-4][k % 3]
         bounds = rng.choice([{}, {}, dict(start_time=40), dict(end_time=10), dict(start_time=30, end_time=5)])
+        if windows:
+            bounds = [dict(end_time=20), dict(start_time=20), dict(start_time=20, end_time=5)][k % 3]
+            rate = rng.choice([1e-3, 1e-3, 2e-3])
+            used = set()
         pairs = set()
         for _ in range(rng.randint(1, 3)):
             grp = rng.sample(names, rng.randint(2, n))
